@@ -187,11 +187,16 @@ def run_alias(case):
         other = spelling_variant(sh, spelling, alt)
         if other is not None:
             sites.append((root + spelling + "|" + root + other, fold_poly(base, base)[0]))
-    for text, want in sites:
+    refused = [root + spelling + "/H", root + "foo|" + root, root + spelling + "|Xm", "H" + spelling]
+    for k, (text, want) in enumerate(sites):
+        # a malformed slash chord / polychord / root asked just before (it is refused; how is the malformed clause's
+        # subject) must not change what the next well-formed string means
+        call(chords.from_shorthand, refused[k % len(refused)])
         got, e = call(chords.from_shorthand, text)
-        S.trans(1)
+        S.trans(2)
         if e is not None:
-            S.problem("from_shorthand(%r)" % text, want, err_name(e), detail="same as %r" % (root + sh))
+            S.problem("from_shorthand(%r) right after the refused from_shorthand(%r)" % (text, refused[k % len(refused)]), want, err_name(e),
+                      detail="same as %r" % (root + sh))
         elif got != want:
             S.problem("from_shorthand(%r)" % text, want, got, detail="same as %r" % (root + sh))
         else:
